@@ -2,35 +2,47 @@
 Model of the provider-locator half of `KademliaTable` (src/dht/KademliaTable.cpp):
 `add_contact` (locator part), `find_providers`, `sweep_expired` (locator part),
 `withdraw_contact`.  Times are integers (nanoseconds of the steady clock); ids are opaque
-strings.  `std::sort`'s order among equal expiries is unspecified, so the truncation step
-takes an explicit *hint* (the set of peers to keep): every valid hint is honoured, an invalid
-or missing one falls back to a stable sort.  All theorems quantify over every hint.
+strings.  `std::unordered_map<std::string, ChunkLocator>` is a finite map, modelled as a
+function `String → Option Loc` (`none` = no entry).  `std::sort`'s order among equal expiries
+is unspecified, so the truncation step takes an explicit *hint* (the set of peers to keep):
+every valid hint is honoured, an invalid or missing one falls back to a stable sort.  All
+theorems quantify over every hint.
+
+The holder record `(peer, expiry)` is the observable vocabulary of the specification
+(`C06Spec.Ann`); only that type is shared with the specification.
 -/
 import EphVerif.Generated.C06
+import EphVerif.Spec.Providers
 
 namespace EphVerif.Providers
 
-structure Holder where
-  peer : String
-  exp : Int
-deriving DecidableEq, Repr, Inhabited
+/-- `PeerContact` as far as the locator table is concerned: id and `expires_at` -/
+abbrev Holder := EphVerif.C06Spec.Ann
 
+/-- `ChunkLocator`: holders and `expires_at` (the id is the map key) -/
 structure Loc where
-  chunk : String
   holders : List Holder
   exp : Int
 deriving DecidableEq, Repr, Inhabited
 
-/-- `unordered_map<string, ChunkLocator>`: association list with unique keys. -/
-abbrev Table := List Loc
+/-- `unordered_map<string, ChunkLocator> table_` -/
+abbrev Table := String → Option Loc
+
+def Table.empty : Table := fun _ => none
+
+/-- `table_[c] = v` / `table_.erase(c)` -/
+def Table.set (t : Table) (c : String) (v : Option Loc) : Table := fun k => if k = c then v else t k
 
 def maxProviders : Nat := EphVerif.Gen.C06.kMaxProviders
 
+/-- `expired(contact, now)`: `now >= contact.expires_at` -/
 def expired (now : Int) (h : Holder) : Bool := decide (now ≥ h.exp)
 
-def lookup (t : Table) (c : String) : Option Loc := t.find? (·.chunk == c)
-def erase (t : Table) (c : String) : Table := t.filter (·.chunk != c)
-def upsert (t : Table) (l : Loc) : Table := l :: erase t l.chunk
+/-- the holders of `c` as `snapshot_locators()` shows them (`[]` if there is no locator) -/
+def holdersOf (t : Table) (c : String) : List Holder :=
+  match t c with
+  | some l => l.holders
+  | none => []
 
 /-- insertion into a list sorted by descending expiry, after all entries with expiry ≥ (stable) -/
 def insertDesc (h : Holder) : List Holder → List Holder
@@ -53,35 +65,52 @@ def cut (n : Nat) (base : List Holder) (hint : Option (List String)) : List Hold
 
 def maxExp (l : List Holder) (d : Int) : Int := l.foldl (fun m h => max m h.exp) d
 
+/-- the holder list of `add_contact` before truncation: same-id entries removed, new one pushed -/
+def addBase (old : List Holder) (p : String) (e : Int) : List Holder :=
+  old.filter (fun h => h.peer != p) ++ [⟨p, e⟩]
+
 /-- `add_contact(chunk, contact, ttl)` at time `now`; `ttlNs` is the TTL in nanoseconds. -/
 def addContact (t : Table) (now : Int) (c p : String) (ttlNs : Int) (hint : Option (List String)) : Table :=
   let e := now + ttlNs
-  let old := match lookup t c with
-    | some l => l.holders
-    | none => []
-  let base := old.filter (·.peer != p) ++ [⟨p, e⟩]
+  let base := addBase (holdersOf t c) p e
   let hs := if base.length > maxProviders then cut maxProviders base hint else base
   -- fix(C06): the locator expires with its longest-lived holder
-  upsert t ⟨c, hs, maxExp hs e⟩
+  t.set c (some ⟨hs, maxExp hs e⟩)
 
 def findProviders (t : Table) (now : Int) (c : String) : Table × List Holder :=
-  match lookup t c with
+  match t c with
   | none => (t, [])
   | some l =>
     let hs := l.holders.filter (fun h => !expired now h)
-    if hs.isEmpty then (erase t c, [])
-    else (t.map (fun x => if x.chunk == c then { x with holders := hs } else x), hs)
+    if hs.isEmpty then (t.set c none, [])
+    else (t.set c (some { l with holders := hs }), hs)
 
-def sweep (t : Table) (now : Int) : Table :=
-  (t.map (fun l => { l with holders := l.holders.filter (fun h => !expired now h) })).filter
-    (fun l => !(l.holders.isEmpty || decide (now ≥ l.exp)))
+/-- the locator loop of `sweep_expired`: every entry is visited once -/
+def sweep (t : Table) (now : Int) : Table := fun c =>
+  match t c with
+  | none => none
+  | some l =>
+    let hs := l.holders.filter (fun h => !expired now h)
+    if hs.isEmpty || decide (now ≥ l.exp) then none else some { l with holders := hs }
 
 def withdraw (t : Table) (c p : String) : Table :=
-  match lookup t c with
+  match t c with
   | none => t
   | some l =>
-    let hs := l.holders.filter (·.peer != p)
-    if hs.isEmpty then erase t c
-    else t.map (fun x => if x.chunk == c then { x with holders := hs } else x)
+    let hs := l.holders.filter (fun h => h.peer != p)
+    if hs.isEmpty then t.set c none
+    else t.set c (some { l with holders := hs })
+
+/-! ### Histories -/
+
+/-- one operation of a history; `adv` carries a non-negative clock advance, `add` the TTL in
+    nanoseconds (any sign) and the tie-break hint for the truncation -/
+inductive Op where
+  | adv (d : Nat)
+  | add (c p : String) (ttlNs : Int) (hint : Option (List String))
+  | find (c : String)
+  | sweep
+  | withdraw (c p : String)
+deriving Repr
 
 end EphVerif.Providers
